@@ -144,7 +144,14 @@ func build(base string, startLoops bool) (a *asm, err error) {
 	if err = a.dhcp.AddStatic(net.HardwareAddr{2, 0, 0, 0, 0, 9}, netip.MustParseAddr("192.168.1.9"), "laptop"); err != nil {
 		return nil, fmt.Errorf("dhcp reservation: %w", err)
 	}
-	a.clients, err = client.NewStorage(ctx, &client.StorageConfig{Logger: srv.Discard, Clock: timeutil.SystemClock{}, DHCP: a.dhcp, InitialClients: []*client.Persistent{kid, spare}, RuntimeSourceDHCP: true})
+	// A client identified by the hardware address of the reservation: requests
+	// from 192.168.1.9 are attributed to it through the DHCP lease.
+	macdev := &client.Persistent{Name: "macdev", BlockedServices: &filtering.BlockedServices{Schedule: schedule.EmptyWeekly()}}
+	macdev.UID[0], macdev.UID[15] = 3, 9
+	if err = macdev.SetIDs([]string{"02:00:00:00:00:09"}); err != nil {
+		return nil, err
+	}
+	a.clients, err = client.NewStorage(ctx, &client.StorageConfig{Logger: srv.Discard, Clock: timeutil.SystemClock{}, DHCP: a.dhcp, InitialClients: []*client.Persistent{kid, spare, macdev}, RuntimeSourceDHCP: true})
 	if err != nil {
 		return nil, err
 	}
